@@ -348,20 +348,26 @@ package mocker
 //@   ensures declared_parameter_types: len(result0) == rt_numin(funTyp) - ite(isMethod, int(1), int(0)) && 0 <= len(result0) && len(result0) < 0x10000 && fresh(result0) && result1 == rt_variadic(funTyp)
 //@     | && forall j int :: 0 <= j && j < len(result0) ==> result0[j] == rt_in(funTyp, j + ite(isMethod, int(1), int(0))) && result0[j] != nil
 
-// argument conditions: one expression per configured argument (arg.ToExpr, verified), each resolved against its own
-// parameter type; the constructor itself stays TRUSTED (un-trusting it was tried: it discharges, but it widens the frame
-// of every builder by the expressions' fields, which was not propagated); what the expressions then accept is
+// argument conditions: one expression per configured argument (arg.ToExpr), each resolved against its own parameter
+// type - for a variadic function the tail arguments against the element type; what the expressions then accept is
 // DefaultMatcher.Match's contract (C04)
-//@ trusted func newDefaultMatch
-//@   props C04
-//@   assigns varval
-//@   fresh
-//@   may_panic
+//@ func newDefaultMatch
+//@   props C04 C13
+//@   requires type: funTyp != nil && rt_kind(funTyp) == reflect.Func
+//@   assume sane_lengths: len(args) < 0x8000 && len(results) < 0x8000
+//@   assume methods_have_a_receiver: isMethod ==> rt_numin(funTyp) >= 1
+//@   assume variadic_tail_is_a_slice_type: rt_variadic(funTyp) ==> rt_numin(funTyp) - ite(isMethod, int(1), int(0)) >= 1 && rt_kind(rt_in(funTyp, rt_numin(funTyp) - 1)) == reflect.Slice
+//@   assigns anyfield(arg.EqualsExpr, argV), anyfield(arg.InExpr, expressions), varval
+//@   invariant loop 1 tail_types_appended: 0 <= len(argsTypes) && len(argsTypes) <= 0x10000 + len(args) && expandType != nil && (forall k int :: 0 <= k && k < len(argsTypes) ==> argsTypes[k] != nil)
+//@     | && funTyp != nil && rt_kind(funTyp) == reflect.Func && fresh(argsTypes)
+//@   ensures one_expression_per_argument: result != nil && fresh(result) && len(result.exprs) == len(args) && (forall j int :: 0 <= j && j < len(args) ==> result.exprs[j] != nil)
+//@   ensures shape_recorded: result.isMethod == isMethod && result.isVariadic == rt_variadic(funTyp) && result.BaseMatcher != nil
+//@   panics_only_if arguments_rejected: true
 
 //@ func CreateWhen
 //@   props C12 C13 C09
 //@   requires type: funcDef != nil && rt_kind(rt_of(typeof(funcDef))) == reflect.Func && len(defaultReturns) < 0x10000
-//@   assigns varval
+//@   assigns varval, anyfield(arg.EqualsExpr, argV), anyfield(arg.InExpr, expressions)
 //@   ensures when_or_error: (result0 == nil) == (result1 != nil) && (result0 != nil ==> result0.funcTyp != nil && fresh(result0))
 //@   ensures too_few_returns_rejected: defaultReturns != nil && len(defaultReturns) < rt_numout(rt_of(typeof(funcDef))) ==> result1 != nil
 //@   ensures too_few_args_rejected: args != nil && len(args) + ite(isMethod, int(1), int(0)) < rt_numin(rt_of(typeof(funcDef))) ==> result1 != nil
@@ -405,8 +411,8 @@ package mocker
 // When.When only sets the pending condition; rejected arguments leave it as it was
 //@ func (w *When) When
 //@   props C04 C13
-//@   requires receiver: w != nil
-//@   assigns w.curMatch, varval
+//@   requires receiver: w != nil && w.funcTyp != nil && rt_kind(w.funcTyp) == reflect.Func
+//@   assigns w.curMatch, varval, anyfield(arg.EqualsExpr, argV), anyfield(arg.InExpr, expressions)
 //@   ensures pending_condition_set: w.curMatch != nil && result == w
 //@   panics_only_if arguments_rejected: true
 //@   ensures_on_panic pending_condition_unchanged: w.curMatch == old(w.curMatch)
@@ -452,7 +458,7 @@ package mocker
 //@   requires inv: mocker_inv(m.baseMocker)
 //@   requires patch_state: patch_state_ok()
 //@   assigns m.baseMocker.when, m.baseMocker.guard, m.baseMocker.imp, m.baseMocker.funcDef, running[m.baseMocker], stub_of[m.baseMocker], textmem, perm, mapof(patch.patches), anyfield(patch.patch, guard), anyfield(patch.Guard, applied),
-//@     | mutex_held[addr(patch.patchesLock)], rw_wheld[addr(memory.memoryAccessLock)], rw_rheld[addr(memory.memoryAccessLock)], placeholder_target[m.baseMocker.origin], varval, anyfield(When, matches), anyfield(When, defaultReturns), anyfield(BaseMatcher, results), m.baseMocker.when.matches[len(m.baseMocker.when.matches) : cap(m.baseMocker.when.matches)]
+//@     | mutex_held[addr(patch.patchesLock)], rw_wheld[addr(memory.memoryAccessLock)], rw_rheld[addr(memory.memoryAccessLock)], placeholder_target[m.baseMocker.origin], varval, anyfield(arg.EqualsExpr, argV), anyfield(arg.InExpr, expressions), anyfield(When, matches), anyfield(When, defaultReturns), anyfield(BaseMatcher, results), m.baseMocker.when.matches[len(m.baseMocker.when.matches) : cap(m.baseMocker.when.matches)]
 //@   ensures stub_supersedes_callback: m.baseMocker.when != nil && running[m.baseMocker] == stub_of[m.baseMocker]
 //@   ensures continues_existing_configuration: old(m.baseMocker.when) != nil ==> m.baseMocker.when == old(m.baseMocker.when)
 //@   ensures[C13] too_few_return_values_rejected_up_front: old(m.baseMocker.when) == nil && m.funcDef != nil ==> len(value) >= rt_numout(rt_of(typeof(m.funcDef)))
@@ -635,7 +641,7 @@ package mocker
 //@   requires target_is_a_function: m.funcDef != nil && rt_kind(rt_of(typeof(m.funcDef))) == reflect.Func && len(values) < 0x10000
 //@   requires patch_state: patch_state_ok()
 //@   assigns m.baseMocker.when, m.baseMocker.guard, m.baseMocker.imp, m.baseMocker.funcDef, running[m.baseMocker], stub_of[m.baseMocker], textmem, perm, mapof(patch.patches), anyfield(patch.patch, guard), anyfield(patch.Guard, applied),
-//@     | mutex_held[addr(patch.patchesLock)], rw_wheld[addr(memory.memoryAccessLock)], rw_rheld[addr(memory.memoryAccessLock)], placeholder_target[m.baseMocker.origin], varval, anyfield(When, matches), anyfield(When, defaultReturns), anyfield(When, curMatch), anyfield(BaseMatcher, results), m.baseMocker.when.matches[len(m.baseMocker.when.matches) : cap(m.baseMocker.when.matches)]
+//@     | mutex_held[addr(patch.patchesLock)], rw_wheld[addr(memory.memoryAccessLock)], rw_rheld[addr(memory.memoryAccessLock)], placeholder_target[m.baseMocker.origin], varval, anyfield(arg.EqualsExpr, argV), anyfield(arg.InExpr, expressions), anyfield(When, matches), anyfield(When, defaultReturns), anyfield(When, curMatch), anyfield(BaseMatcher, results), m.baseMocker.when.matches[len(m.baseMocker.when.matches) : cap(m.baseMocker.when.matches)]
 //@   ensures patch_state_kept: patch.table_inv() && !patch.locked()
 //@   panics_only_if configuration_rejected: true
 //@   ensures_on_panic rejected_configuration_leaves_unmocked_targets_alone: patch.panic_frame()
@@ -647,7 +653,7 @@ package mocker
 //@   requires target_is_a_function: m.funcDef != nil && rt_kind(rt_of(typeof(m.funcDef))) == reflect.Func && len(specArg) < 0x10000
 //@   requires patch_state: patch_state_ok()
 //@   assigns m.baseMocker.when, m.baseMocker.guard, m.baseMocker.imp, m.baseMocker.funcDef, running[m.baseMocker], stub_of[m.baseMocker], textmem, perm, mapof(patch.patches), anyfield(patch.patch, guard), anyfield(patch.Guard, applied),
-//@     | mutex_held[addr(patch.patchesLock)], rw_wheld[addr(memory.memoryAccessLock)], rw_rheld[addr(memory.memoryAccessLock)], placeholder_target[m.baseMocker.origin], varval, anyfield(When, matches), anyfield(When, defaultReturns), anyfield(When, curMatch), anyfield(BaseMatcher, results), m.baseMocker.when.matches[len(m.baseMocker.when.matches) : cap(m.baseMocker.when.matches)]
+//@     | mutex_held[addr(patch.patchesLock)], rw_wheld[addr(memory.memoryAccessLock)], rw_rheld[addr(memory.memoryAccessLock)], placeholder_target[m.baseMocker.origin], varval, anyfield(arg.EqualsExpr, argV), anyfield(arg.InExpr, expressions), anyfield(When, matches), anyfield(When, defaultReturns), anyfield(When, curMatch), anyfield(BaseMatcher, results), m.baseMocker.when.matches[len(m.baseMocker.when.matches) : cap(m.baseMocker.when.matches)]
 //@   ensures patch_state_kept: patch.table_inv() && !patch.locked()
 //@   panics_only_if configuration_rejected: true
 //@   ensures_on_panic rejected_configuration_leaves_unmocked_targets_alone: patch.panic_frame()
@@ -659,7 +665,7 @@ package mocker
 //@   requires target_is_a_method: m.methodIns != nil && rt_kind(rt_of(typeof(m.methodIns))) == reflect.Func && len(value) < 0x10000
 //@   requires patch_state: patch_state_ok()
 //@   assigns m.baseMocker.when, m.baseMocker.guard, m.baseMocker.imp, m.baseMocker.funcDef, running[m.baseMocker], stub_of[m.baseMocker], textmem, perm, mapof(patch.patches), anyfield(patch.patch, guard), anyfield(patch.Guard, applied),
-//@     | mutex_held[addr(patch.patchesLock)], rw_wheld[addr(memory.memoryAccessLock)], rw_rheld[addr(memory.memoryAccessLock)], placeholder_target[m.baseMocker.origin], varval, anyfield(When, matches), anyfield(When, defaultReturns), anyfield(When, curMatch), anyfield(BaseMatcher, results), m.baseMocker.when.matches[len(m.baseMocker.when.matches) : cap(m.baseMocker.when.matches)]
+//@     | mutex_held[addr(patch.patchesLock)], rw_wheld[addr(memory.memoryAccessLock)], rw_rheld[addr(memory.memoryAccessLock)], placeholder_target[m.baseMocker.origin], varval, anyfield(arg.EqualsExpr, argV), anyfield(arg.InExpr, expressions), anyfield(When, matches), anyfield(When, defaultReturns), anyfield(When, curMatch), anyfield(BaseMatcher, results), m.baseMocker.when.matches[len(m.baseMocker.when.matches) : cap(m.baseMocker.when.matches)]
 //@   ensures stub_supersedes_callback: m.baseMocker.when != nil && (old(m.baseMocker.when) == nil ==> running[m.baseMocker] == stub_of[m.baseMocker])
 //@   ensures continues_existing_configuration: old(m.baseMocker.when) != nil ==> m.baseMocker.when == old(m.baseMocker.when)
 //@   ensures too_few_return_values_rejected_up_front: old(m.baseMocker.when) == nil ==> len(value) >= rt_numout(rt_of(typeof(m.methodIns)))
@@ -676,7 +682,7 @@ package mocker
 //@   requires target_is_a_method: m.methodIns != nil && rt_kind(rt_of(typeof(m.methodIns))) == reflect.Func && len(values) < 0x10000
 //@   requires patch_state: patch_state_ok()
 //@   assigns m.baseMocker.when, m.baseMocker.guard, m.baseMocker.imp, m.baseMocker.funcDef, running[m.baseMocker], stub_of[m.baseMocker], textmem, perm, mapof(patch.patches), anyfield(patch.patch, guard), anyfield(patch.Guard, applied),
-//@     | mutex_held[addr(patch.patchesLock)], rw_wheld[addr(memory.memoryAccessLock)], rw_rheld[addr(memory.memoryAccessLock)], placeholder_target[m.baseMocker.origin], varval, anyfield(When, matches), anyfield(When, defaultReturns), anyfield(When, curMatch), anyfield(BaseMatcher, results), m.baseMocker.when.matches[len(m.baseMocker.when.matches) : cap(m.baseMocker.when.matches)]
+//@     | mutex_held[addr(patch.patchesLock)], rw_wheld[addr(memory.memoryAccessLock)], rw_rheld[addr(memory.memoryAccessLock)], placeholder_target[m.baseMocker.origin], varval, anyfield(arg.EqualsExpr, argV), anyfield(arg.InExpr, expressions), anyfield(When, matches), anyfield(When, defaultReturns), anyfield(When, curMatch), anyfield(BaseMatcher, results), m.baseMocker.when.matches[len(m.baseMocker.when.matches) : cap(m.baseMocker.when.matches)]
 //@   ensures patch_state_kept: patch.table_inv() && !patch.locked()
 //@   panics_only_if configuration_rejected: true
 //@   ensures_on_panic rejected_configuration_leaves_unmocked_targets_alone: patch.panic_frame()
@@ -687,7 +693,7 @@ package mocker
 //@   requires existing_configuration_well_formed: m.baseMocker.when != nil ==> when_shape(m.baseMocker.when)
 //@   requires patch_state: patch_state_ok()
 //@   assigns m.baseMocker.when, m.baseMocker.guard, m.baseMocker.imp, m.baseMocker.funcDef, running[m.baseMocker], stub_of[m.baseMocker], textmem, perm, mapof(patch.patches), anyfield(patch.patch, guard), anyfield(patch.Guard, applied),
-//@     | mutex_held[addr(patch.patchesLock)], rw_wheld[addr(memory.memoryAccessLock)], rw_rheld[addr(memory.memoryAccessLock)], placeholder_target[m.baseMocker.origin], varval, anyfield(When, matches), anyfield(When, defaultReturns), anyfield(When, curMatch), anyfield(BaseMatcher, results), m.baseMocker.when.matches[len(m.baseMocker.when.matches) : cap(m.baseMocker.when.matches)]
+//@     | mutex_held[addr(patch.patchesLock)], rw_wheld[addr(memory.memoryAccessLock)], rw_rheld[addr(memory.memoryAccessLock)], placeholder_target[m.baseMocker.origin], varval, anyfield(arg.EqualsExpr, argV), anyfield(arg.InExpr, expressions), anyfield(When, matches), anyfield(When, defaultReturns), anyfield(When, curMatch), anyfield(BaseMatcher, results), m.baseMocker.when.matches[len(m.baseMocker.when.matches) : cap(m.baseMocker.when.matches)]
 //@   ensures patch_state_kept: patch.table_inv() && !patch.locked()
 //@   panics_only_if configuration_rejected: true
 //@   ensures_on_panic rejected_configuration_leaves_unmocked_targets_alone: patch.panic_frame()
@@ -732,8 +738,8 @@ package mocker
 // configured default, or the 'no suitable condition' panic if there is none.
 //@ func (w *When) Matches
 //@   props C04 C05
-//@   requires receiver: w != nil && 0 <= len(w.matches) && len(w.matches) < 0x10000 && len(argAndRet) < 0x10000
-//@   assigns w.matches, varval, w.matches[len(w.matches) : cap(w.matches)]
+//@   requires receiver: w != nil && 0 <= len(w.matches) && len(w.matches) < 0x10000 && len(argAndRet) < 0x10000 && w.funcTyp != nil && rt_kind(w.funcTyp) == reflect.Func
+//@   assigns w.matches, varval, anyfield(arg.EqualsExpr, argV), anyfield(arg.InExpr, expressions), w.matches[len(w.matches) : cap(w.matches)]
 //@   invariant loop 1 one_condition_per_pair_so_far: w != nil && -1 <= rangeindex && rangeindex < len(argAndRet) && len(w.matches) == old(len(w.matches)) + rangeindex + 1
 //@   invariant loop 1 grows_in_place_or_in_a_fresh_array: (arr(w.matches) == old(arr(w.matches)) && off(w.matches) == old(off(w.matches)) && cap(w.matches) == old(cap(w.matches))) || fresh(w.matches)
 //@   decreases loop 1 len(argAndRet) - rangeindex
@@ -821,7 +827,7 @@ package mocker
 //@   requires context: iface_ctx_ok(m.ctx)
 //@   assigns stub.placeHolderIns.off, ticket_lo, ticket_hi, textmem, perm, rw_wheld[addr(memory.memoryAccessLock)], m.ctx.p.proxyFunc, m.ctx.p.retained,
 //@     | m.ctx.p.retained[len(m.ctx.p.retained) : cap(m.ctx.p.retained)], unexports2.symTable, unexports2.symTableLoadError, unexports2.funcAlignment, unexports2.varAlignment,
-//@     | m.ctx.p.originIface, m.ctx.p.originIfaceValue, mapof(m.ctx.p.ifaceCache), anyfield(hack.Iface, Tab), anyfield(hack.Iface, Data), anyfield(hack.Itab, Fun), m.baseMocker.guard, m.baseMocker.imp, m.baseMocker.when, varval, anyfield(When, matches), anyfield(When, defaultReturns), anyfield(BaseMatcher, results), m.baseMocker.when.matches[len(m.baseMocker.when.matches) : cap(m.baseMocker.when.matches)]
+//@     | m.ctx.p.originIface, m.ctx.p.originIfaceValue, mapof(m.ctx.p.ifaceCache), anyfield(hack.Iface, Tab), anyfield(hack.Iface, Data), anyfield(hack.Itab, Fun), m.baseMocker.guard, m.baseMocker.imp, m.baseMocker.when, varval, anyfield(arg.EqualsExpr, argV), anyfield(arg.InExpr, expressions), anyfield(When, matches), anyfield(When, defaultReturns), anyfield(BaseMatcher, results), m.baseMocker.when.matches[len(m.baseMocker.when.matches) : cap(m.baseMocker.when.matches)]
 //@   ensures configuration_recorded: m.baseMocker.when != nil && result == m.baseMocker.when
 //@   ensures continues_existing_configuration: old(m.baseMocker.when) != nil ==> m.baseMocker.when == old(m.baseMocker.when)
 //@   ensures variable_holds_the_mock: old(m.baseMocker.when) == nil ==> proxy.var_of(m.iFace).Tab != nil && proxy.var_of(m.iFace).Data == m.ctx
